@@ -55,7 +55,8 @@ def clauses(up0, toks):
     in_flight = None    # state of the slow call made and not yet returned
     last_made = None    # state of the successful call the device made last: what it last told EdgeX
     connected = False   # a connection stands (good handshake, no failure / end / Stop since)
-    fails_up = 0        # failed attempts since EdgeX was last told Up (an Up that returns late restarts the count)
+    fails_up = 0        # consecutive failed attempts as EdgeX can count them: since it was last told Up (an Up that returns late
+                        # restarts the count) and since an attempt last ended normally; a handshake alone does NOT restart it
     for i, t in enumerate(toks):
         if t.startswith("!nodial") or t.startswith("!noconn"):
             bad.append(("no-dial", "no further connection attempt although the device was not stopped (%s)" % t))
@@ -63,6 +64,9 @@ def clauses(up0, toks):
             bad.append(("dial-after-stop", "connection attempt after Stop returned (%s)" % t))
         elif t.startswith("!name"):
             bad.append(("wrong-name", "operating state reported under another device name (%s)" % t))
+        elif t == "!attemptstuck":
+            bad.append(("attempt-never-ends", "the reader accepted and never completes the handshake (silent, or talking without answering): the device is still inside "
+                        "that one attempt after 80 s (its own budget is the 60 s client timeout): the attempt is never counted as failed, nothing is retried"))
         elif t == "!wrongport":
             bad.append(("addr-not-followed", "connection arrived at another address than the one resolved"))
         m = re.match(r"^d(\d+)$", t)
@@ -71,8 +75,9 @@ def clauses(up0, toks):
                 bad.append(("dial-after-stop", "attempt d%s after Stop" % m.group(1)))
             if int(m.group(1)) != addr:
                 bad.append(("addr-not-followed", "attempt dials address %s, last address set is %d" % (m.group(1), addr)))
-            if min(fails_hs, fails_g, fails_up) >= 2 and cur != "D" and sdk_on and not sdk_failed and in_flight is None:
-                bad.append(("down-missing", "%d attempts failed since the reader last accepted (%d since the SDK call works), next attempt starts and EdgeX does not hold Down" % (fails_hs, fails_g)))
+            if min(fails_g, fails_up) >= 2 and cur != "D" and sdk_on and not sdk_failed and in_flight is None:
+                bad.append(("down-missing", "%d consecutive attempts have failed since EdgeX was last told Up (%d since the reader last accepted, %d since the SDK call works), "
+                            "the next attempt starts and EdgeX does not hold Down" % (fails_up, fails_hs, fails_g)))
             dials_since_hs += 1
             if pending_up is not None and dials_since_hs >= 2:
                 bad.append(("up-missing", "reader accepted a connection while Down and Up was not reported"))
@@ -103,6 +108,7 @@ def clauses(up0, toks):
                 pending_up = None
         elif t == "norm":
             fails_norm = 0
+            fails_up = 0
             connected = False
         elif t == "stop":
             stopped = True
@@ -144,8 +150,9 @@ def clauses(up0, toks):
             if pending_up is not None:
                 bad.append(("up-missing", "reader accepted a connection while Down and Up was not reported"))
                 pending_up = None
-    if min(fails_hs, fails_g, fails_up) >= 2 and cur != "D" and sdk_on and not sdk_failed and in_flight is None:
-        bad.append(("down-missing", "%d attempts failed since the reader last accepted (%d since the SDK call works) and EdgeX does not hold Down" % (fails_hs, fails_g)))
+    if min(fails_g, fails_up) >= 2 and cur != "D" and sdk_on and not sdk_failed and in_flight is None:
+        bad.append(("down-missing", "%d consecutive attempts have failed since EdgeX was last told Up (%d since the reader last accepted, %d since the SDK call works) "
+                    "and EdgeX does not hold Down" % (fails_up, fails_hs, fails_g)))
     if connected and not stopped and cur != "U" and in_flight is None and sdk_on and not sdk_failed:
         bad.append(("state-not-following-reachability", "the reader holds a connection of the device, no call is in flight and EdgeX holds Down"))
     if pending_up is not None:
@@ -156,7 +163,7 @@ def clauses(up0, toks):
 def nontrivial(script):
     toks = script.split()[1:]
     nd = sum(1 for t in toks if t[0] == "D")
-    return nd >= 2 and any(t in ("DR", "DS", "DZ", "DP", "DB", "DH", "X") or t[0] in "UuQq" for t in toks)
+    return nd >= 2 and any(t in ("DR", "DS", "DZ", "DP", "DB", "DH", "DN", "DM", "DK", "Dk", "DV", "DJ", "X") or t[0] in "UuQq" for t in toks)
 
 
 def run(tier, seed, replay=None):
@@ -208,10 +215,14 @@ def run(tier, seed, replay=None):
             # a reader that accepts and then says nothing at all: the device must give up by itself
             # (60 s read timeout) and go on dialling; runs alongside the other scripts
             scripts = ["1 DZ DE T", "0 DR DZ T", "1 DP DE T", "0 DP DR T"] + scripts
+            # a reader that sends its connection-success event and then never completes version negotiation while it keeps
+            # talking (KeepAlives / reports), at GetSupportedVersion, at SetProtocolVersion, or mid-message: a failed attempt
+            # within the device's own budget
+            scripts = ["0 DK DR DE T", "1 DK DE T", "0 DV DR DE T", "1 Dk DR DE T", "1 DJ DR DE T", "1 DR DK DE T", "1 DK DK DE T"] + scripts
         else:
             # one instance also in the quick tier (the 60 s are the client's keepAliveInterval *
             # maxMissedKAs, constants; it runs alongside everything else and sets the tier's wall time)
-            scripts = ["1 DZ DR T"] + scripts
+            scripts = ["1 DZ DR T", "1 DK DR DE T", "0 DK DR DE T"] + scripts
         seen, uniq = set(), []
         for s in scripts:
             if s not in seen:
@@ -445,7 +456,17 @@ def run(tier, seed, replay=None):
                          "reachability demands %s (isUp=%s)" % (s.split()[1], s.split()[2], got, gup, exp, up))]
             return []
         toks = [t for t in parse(g)[0] if not (s.split()[1:2] in (["Y"], ["y"]) and t.startswith(("!cancelled", "!latelookup")))]
-        return clauses(s.split()[0] == "1", toks)
+        bad = clauses(s.split()[0] == "1", toks)
+        # a reader that sends its connection-success event and never completes version negotiation (it keeps talking, or
+        # goes silent mid-message): violations of such histories carry their own signature
+        # (known finding, DESIGN §6) ONLY for this class: a Down that is missing after an attempt in which the reader kept the
+        # connection but never completed negotiation and which the DEVICE ended through onConnect's own reset (sendTimeout at
+        # the ready gate + Shutdown's wait = 40 s, well before the 60 s client time-out; the reader logs ~gaveup<seconds>)
+        if bad and any(t in ("DK", "Dk", "DV", "DJ") for t in s.split()[1:]):
+            gave = [int(t[7:]) for t in toks if re.match(r"^~gaveup\d+$", t)]
+            if gave and all(30 <= x < 55 for x in gave):
+                bad = [(sig + ":negotiation-stalls" if sig == "down-missing" else sig, text) for sig, text in bad]
+        return bad
 
     ys = [s for s in scripts if s.split()[1:2] in (["Y"], ["y"])]
     if ys:
@@ -455,6 +476,7 @@ def run(tier, seed, replay=None):
 
     evals, retried, flaky = 0, 0, 0
     pend_skipped, slow_calls = [], [0]
+    first_pass = {}
     dist = {}
     nontriv = set()
     samples = []
@@ -496,11 +518,23 @@ def run(tier, seed, replay=None):
             continue
         if differs(g, o, s) or prop(s, g):
             suspects.append(s)
+            first_pass[s] = (g, o)
 
+    # scripts with a stalled negotiation take 40 s and more, governed by the device's 20 s timers, not by scheduling: when two
+    # or more of them break the same clauses in the same pass they confirm each other and are not run again
+    stalls = [x for x in suspects if any(t in ("DK", "Dk", "DV", "DJ") for t in x.split()[1:])]
+    confirmed = {}
+    if len(stalls) >= 2:
+        sigsets = {x: frozenset(sig for sig, _ in prop(x, first_pass[x][0])) for x in stalls}
+        if len(set(sigsets.values())) == 1 and next(iter(sigsets.values())):
+            for x in stalls:
+                g1, o1 = first_pass[x]
+                confirmed[x] = (g1, o1, differs(g1, o1, x), prop(x, g1))
+            suspects = [x for x in suspects if x not in confirmed]
     # anything that differs or breaks a clause is run again, alone and with little parallelism,
     # so that a scheduling hiccup of the harness is not mistaken for behaviour of the device
-    final = {}
-    n_suspects = len(suspects)
+    final = dict(confirmed)
+    n_suspects = len(suspects) + len(confirmed)
     suspects = suspects[:60]     # enough to tell a hiccup from behaviour; keeps a badly broken tree quick
     for attempt in range(2):
         if not suspects:
@@ -517,10 +551,12 @@ def run(tier, seed, replay=None):
             else:
                 flaky += 1
                 final.pop(s, None)
-        suspects = still
+        # scripts with a stalled negotiation take 40 s and more each, governed by the device's 20 s timers, not by
+        # scheduling: one confirmation alone is enough
+        suspects = [x for x in still if not any(t in ("DK", "Dk", "DV", "DJ") for t in x.split()[1:])] if attempt == 0 else still
 
     n_md = 0
-    for s in suspects:
+    for s in list(final):      # what still differed / broke a clause when it was last run alone
         g, o, d, c = final[s]
         if not c:
             n_md += 1
@@ -551,6 +587,6 @@ def run(tier, seed, replay=None):
         differing_on_first_run=n_suspects, rerun_because_different=retried, resolved_on_rerun=flaky,
         clauses_evaluated_on_every_history=["no-dial", "down-missing", "down-premature", "up-missing", "not-alternating",
                                             "dial-after-stop", "addr-not-followed", "send-more-than-3", "send-retried-other-error",
-                                            "down-while-connected", "report-overtaken", "state-not-following-reachability"],
+                                            "down-while-connected", "report-overtaken", "state-not-following-reachability", "attempt-never-ends"],
         trusted_base=res.assumptions)
     return res.finish()
